@@ -254,6 +254,35 @@ Proof.
     apply (unprotect_emitted L X _ e0 seed r1 r2 r3 data w ct p); assumption.
 Qed.
 
+(* what a successful protect call emitted (used by C19 and C04): the blob is the C06 encoding of this value *)
+Lemma protect_inv cache r1 r2 r3 data blob cache1 :
+  cache_ok cache -> len r2 = 12 -> len r3 = 32 ->
+  (forall k w, kw_wrap c k r1 = Ok w -> len w < U32) -> (forall ct, gcm_enc c r1 r2 data = Ok ct -> len ct < U32) ->
+  protect_offline c cache r1 r2 r3 data sid (Some rkid) time_ns = (Ok blob, cache1) ->
+  exists e0 seed w ct p,
+    l0 <= 2147483647 /\ cache_ok cache1 /\ env_ok c h rk rkid sd l0 e0 /\ cc_find_seed (cc_seeds cache1) (rkid, sd, l0) = Some e0 /\
+    derived_seed h rk rkid sd l0 l1 l2 = Ok seed /\ seed <> [] /\
+    kw_wrap c (kek_nonce c h seed r3) r1 = Ok w /\ gcm_enc c r1 r2 data = Ok ct /\
+    gcm_parameters r2 = Ok p /\ gcm_iv_of_parameters (Some p) = Ok r2 /\
+    let b := emitted_blob (emitted_kid (gke_flags e0) l0 l1 l2 rkid r3 (gke_domain e0) (gke_forest e0)) sid w ct p in
+    wf_blob b = true /\ blob_pack b true = Ok blob /\ blob_unpack blob = Ok b.
+Proof.
+  intros Hc Hr2 Hr3 Sw Sct Hp. pose proof (protect_l0 _ _ _ _ _ _ _ Hp) as Hb.
+  destruct (interval_ranges _ _ _ _ Hns Hint) as (H0 & H1 & H2).
+  destruct (protect_eq cache r1 r2 r3 data Hb Hc Hr2) as (e0 & c1 & seed & p & He0 & Ef & Hc1 & Es & Ep & Hpn & Hlp & Eiv & Eq).
+  rewrite Eq in Hp. clear Eq.
+  destruct (gcm_enc c r1 r2 data) as [ct|] eqn:Ect; [|discriminate Hp]. cbn [bind] in Hp.
+  destruct (kw_wrap c (kek_nonce c h seed r3) r1) as [w|] eqn:Ew; [|discriminate Hp]. cbn [bind] in Hp.
+  exists e0, seed, w, ct, p. cbv zeta.
+  set (b := emitted_blob (emitted_kid (gke_flags e0) l0 l1 l2 rkid r3 (gke_domain e0) (gke_forest e0)) sid w ct p) in *.
+  assert (Hwf : wf_blob b = true).
+  { destruct He0 as [_ _ _ _ _ _ Hn0]. pose proof (Sw _ _ Ew). pose proof (Sct _ eq_refl). apply emitted_wf; auto; try lia; unfold U32; lia. }
+  destruct (blob_roundtrip b true Hwf) as (ci & Ep1 & Eu1 & _ & _). unfold trailing in Ep1, Eu1. rewrite app_nil_r in Ep1, Eu1.
+  assert (blob = ci /\ cache1 = c1) as [-> ->] by (rewrite Ep1 in Hp; split; congruence).
+  destruct (derived_seed_ok h rk rkid sd l0 l1 l2 (conj H0 Hb) H1 H2 Hne) as (seed' & Es' & Hn). rewrite Es in Es'. apply Ok_inj in Es'. subst seed'.
+  auto 15.
+Qed.
+
 (* protect succeeds when the two primitive calls do (and the clock is before the year 2.5 * 10^9) *)
 Theorem protect_succeeds cache r1 r2 r3 data :
   cache_ok cache -> len r2 = 12 -> len r3 = 32 -> time_ns < 79164825555398400000000000 ->
